@@ -1,10 +1,14 @@
 /- Registry of line-protocol commands: one `xxxCmds` list per Driver/*.lean file. -/
 import QExPy.Driver.Json
 import QExPy.Driver.Expr
+import QExPy.Driver.Stats
+import QExPy.Driver.Corr
+import QExPy.Driver.Uncert
+import QExPy.Driver.ArrayEdit
 namespace QExPy.Drv
 open Lean
 
 def allCmds : List (String × (Json → R Json)) :=
-  exprCmds
+  exprCmds ++ statsCmds ++ corrCmds ++ uncertCmds ++ arrayCmds
 
 end QExPy.Drv
